@@ -9,6 +9,8 @@ import (
 	"go/token"
 	"go/types"
 	"math"
+	"sort"
+	"strings"
 
 	"golang.org/x/tools/go/ssa"
 )
@@ -514,6 +516,8 @@ func runC19(c *Ctx) {
 	c.rule("R-RESET-PAIR", 1, "outside the constructor, p := MaxUint64 is paired in-block with emptying the buffer")
 	c.rule("R-REROLL", 1, "every path through Add removes v from or adds v to the buffer (membership is re-decided on every occurrence)")
 	c.rule("R-HALVE-PAIR", 1, "every removal pass over the buffer is followed by a halving of p before the next pass or return")
+	c.rule("R-PASS-COMPLETE", 0, "a range over the buffer that removes elements has no exit other than exhaustion: every buffered element gets its coin flip in a pass that halves p")
+	c.rule("R-SEED-FRESH", 1, "each counter's random source is seeded from a local buffer filled by crypto/rand in the constructor call itself, not from a value shared between counters")
 	c.rule("R-EXACT-REGIME", 2, "every removal and every halving in Add is control-dependent on p < MaxUint64 or Len >= cap")
 	c.assume("the constructor is called with size >= 1 (cap >= 1)")
 	c.assume("mapset.Set methods have the effects derived from their bodies (grow by at most the number of arguments, shrink, empty)")
@@ -544,6 +548,7 @@ func runC19(c *Ctx) {
 			}
 		}
 	})
+	ruleCounterExtras(c, m, ctor)
 	c.judge(ctorOK, "R-BUF-BOUND", "distinct.NewCounter:establishes", ctor.Pos(), "buffer starts as a fresh empty set: |buf| − cap ≤ −1 for cap ≥ 1", "constructor does not start with a fresh empty buffer")
 	for _, fn := range P.PkgFuncs("distinct") {
 		allInstrs(fn, func(in ssa.Instruction) {
@@ -963,6 +968,154 @@ func runC19(c *Ctx) {
 		}
 		if n == 0 {
 			c.undecided("R-EXACT-REGIME", "distinct.(*Counter).Add", add.Pos(), "no removal or halving found")
+		}
+	}
+}
+
+// ruleCounterExtras: R-PASS-COMPLETE and R-SEED-FRESH (two more necessary
+// conditions of unbiasedness and of independent runs).
+func ruleCounterExtras(c *Ctx, m *counterModel, ctor *ssa.Function) {
+	P := c.P
+	// ---- R-PASS-COMPLETE
+	nPass := 0
+	for fn := range m.methods {
+		for _, f := range withClosures(fn) {
+			f := f
+			for _, b := range f.Blocks {
+				for _, in := range b.Instrs {
+					nx, ok := in.(*ssa.Next)
+					if !ok {
+						continue
+					}
+					rg, ok := nx.Iter.(*ssa.Range)
+					if !ok {
+						continue
+					}
+					if _, fld := loadedField(rg.X); fld == nil || !sameField(fld, m.bufF) {
+						continue
+					}
+					// the loop: blocks dominated by the header that can reach it again
+					hdr := b
+					inLoop := map[*ssa.BasicBlock]bool{hdr: true}
+					var stack []*ssa.BasicBlock
+					for _, p := range hdr.Preds {
+						if hdr.Dominates(p) {
+							stack = append(stack, p)
+						}
+					}
+					for len(stack) > 0 {
+						x := stack[len(stack)-1]
+						stack = stack[:len(stack)-1]
+						if inLoop[x] {
+							continue
+						}
+						inLoop[x] = true
+						stack = append(stack, x.Preds...)
+					}
+					removes := false
+					for lb := range inLoop {
+						for _, in2 := range lb.Instrs {
+							if call, ok := in2.(*ssa.Call); ok {
+								if del, ok := isBuiltinCall(call, "delete"); ok {
+									_ = del
+									removes = true
+								}
+								if cal := staticCallee(&call.Call); cal != nil && origin(cal).Pkg != nil && origin(cal).Pkg.Pkg.Name() == "mapset" && (origin(cal).Name() == "Remove" || origin(cal).Name() == "RemoveAll" || origin(cal).Name() == "Pop") {
+									removes = true
+								}
+							}
+						}
+					}
+					if !removes {
+						continue
+					}
+					nPass++
+					c.sawFn(fnName(f))
+					var exits []string
+					for lb := range inLoop {
+						for si, sb := range lb.Succs {
+							if inLoop[sb] {
+								continue
+							}
+							// the one legitimate exit: the header's "iterator exhausted" edge
+							if lb == hdr {
+								if iff, ok := lb.Instrs[len(lb.Instrs)-1].(*ssa.If); ok {
+									if ex, ok := iff.Cond.(*ssa.Extract); ok && ex.Tuple == ssa.Value(nx) && ex.Index == 0 && si == 1 {
+										continue
+									}
+								}
+							}
+							if endsInPanic(sb) {
+								continue
+							}
+							ep := token.NoPos
+							for _, i3 := range lb.Instrs {
+								if p := instrPos(i3); p != token.NoPos {
+									ep = p
+								}
+							}
+							exits = append(exits, P.pos(ep))
+						}
+					}
+					sort.Strings(exits)
+					c.judge(len(exits) == 0, "R-PASS-COMPLETE", fmt.Sprintf("%s:removal pass #%d", fnName(f), nPass), instrPos(rg.X.(ssa.Instruction)), "the pass ends only when every buffered element has been visited", fmt.Sprintf("the removal pass can be left early (at %v): the elements not yet visited survive without a coin flip while p is still halved, so the estimate is biased upward", exits))
+				}
+			}
+		}
+	}
+	// ---- R-SEED-FRESH
+	{
+		n := 0
+		for _, f := range buildCallScope(ctor).fns {
+			f := f
+			allInstrs(f, func(in ssa.Instruction) {
+				call, ok := in.(*ssa.Call)
+				if !ok {
+					return
+				}
+				cal := staticCallee(&call.Call)
+				if cal == nil || origin(cal).Pkg == nil || !strings.HasPrefix(origin(cal).Pkg.Pkg.Path(), "math/rand") || !strings.HasPrefix(origin(cal).Name(), "New") || len(call.Call.Args) == 0 {
+					return
+				}
+				if origin(cal).Name() == "New" {
+					return // wraps a Source built by one of the seeded constructors
+				}
+				n++
+				c.sawFn(fnName(f))
+				key := fmt.Sprintf("%s:seed of %s #%d", fnName(f), origin(cal).Name(), n)
+				// every seed argument is a load of a local variable that crypto/rand fills in this function
+				okAll, why := true, ""
+				for _, a := range call.Call.Args {
+					ld, isLoad := a.(*ssa.UnOp)
+					var al *ssa.Alloc
+					if isLoad && ld.Op == token.MUL {
+						al, _ = ld.X.(*ssa.Alloc)
+					}
+					if al == nil {
+						okAll, why = false, "the seed "+ksym(a)+" is not a local buffer of this call"
+						continue
+					}
+					filled := false
+					for _, r := range referrersOf(al) {
+						if sl, ok := r.(*ssa.Slice); ok {
+							for _, r2 := range referrersOf(sl) {
+								if c2, ok := r2.(*ssa.Call); ok {
+									if rc := staticCallee(&c2.Call); rc != nil && origin(rc).Pkg != nil && origin(rc).Pkg.Pkg.Path() == "crypto/rand" && dominatesInstr(c2, call) {
+										filled = true
+									}
+								}
+							}
+						}
+					}
+					if !filled {
+						okAll, why = false, "the seed buffer is not filled by crypto/rand before it is used"
+					}
+				}
+				c.judge(okAll, "R-SEED-FRESH", key, call.Pos(), "seeded from a local buffer filled by crypto/rand in this call", why+": counters constructed in one process share their random choices, so separate runs are not independent and their mean does not converge")
+			})
+		}
+		if n == 0 {
+			c.undecided("R-SEED-FRESH", "distinct.NewCounter:seed", ctor.Pos(), "no seeded random source is constructed under NewCounter")
 		}
 	}
 }
